@@ -780,7 +780,7 @@ fn print_known_lines(prop: &str, known: &[Known], stats: &Stats) {
 fn rule_with_canary<P: Prop>(p: &P) -> String {
     let mut r = p.rule();
     if p.canary() {
-        r.push_str(" After every case a small ordinary connection (PING, a query answered with one text row, PING, QUIT) is served on the same thread and must come out conformant and exact: nothing of one connection may leak into the next (thread-locals, statics, pooled buffers).");
+        r.push_str(" After every case two small ordinary connections are served on the same thread: one with PING, a query answered with a text row, PREPARE + EXECUTE answered with a completion and a binary row, a query answered with an error, CLOSE, PING, QUIT, which must come out conformant and exact (values, parameter, sequence ids); and one whose client executes statement ids it never prepared (1 and the first connection's id), which must not reach the shim: nothing of one connection may leak into the next (thread-locals, statics, pooled buffers, statement tables).");
     }
     r
 }
